@@ -301,11 +301,19 @@ def rule_g3(F):
         tried = try_inner_exprs(h)
         seen_k = set()
         for c in hir.nodes(h, "call"):
-            if hir.call_def(c) != "codegen::check::check_roto_type_reflect":
-                continue
+            cd = hir.call_def(c) or ""
+            if cd != "codegen::check::check_roto_type_reflect":
+                # a private helper that makes the check for one argument (`check_argument::<A1>(type_info, 1, a1)?`): its success
+                # implies the success of check_roto_type_reflect, instantiated with the helper's own type parameter
+                if not (cd.startswith("codegen::check::") and "check_roto_type_reflect" in mir.ok_implies(F, cd)):
+                    continue
+                hb_ = F.body(cd)
+                inner = [x for x in hir.nodes(hb_.hir["value"], "call") if hir.call_def(x) == "codegen::check::check_roto_type_reflect"] if hb_ is not None and hb_.hir else []
+                if not inner or any((x["f"].get("gargs") or [None])[0] != "T" for x in inner):
+                    continue
             ga = c["f"].get("gargs") or []
-            a1 = hir.peel_refs(c["args"][1])
-            loc = hir.res_local(a1)
+            bound = [hir.res_local(hir.peel_refs(a_)) for a_ in c["args"] if hir.res_local(hir.peel_refs(a_)) in locals_]
+            loc = bound[0] if bound else hir.res_local(hir.peel_refs(c["args"][1]))
             if loc not in locals_:
                 r.bad(path, "position", relfile(b.file), c["line"], "check_roto_type_reflect is applied to something that is not a parameter binding")
                 continue
@@ -420,9 +428,24 @@ def _args_checker_info(F, kpath):
     ptys = [str(p_.get("ty") or "") for p_ in kb.hir.get("params", [])]
     opt = [i for i, t in enumerate(ptys) if t.startswith("std::option::Option<&[") or t.startswith("Option<&[")]
     rust = [i for i, t in enumerate(ptys) if t.startswith("&[") and "TypeId" in t]
+    whole = False
+    if not opt:
+        # all-in-one form: the checker is handed the Roto type itself (and the constructor's name) and takes it apart on its own
+        opt = [i for i, t in enumerate(ptys) if t.replace("&", "").replace("mut ", "").strip() in ("typechecker::types::Type", "types::Type", "Type")]
+        whole = True
     if len(opt) != 1 or len(rust) != 1:
         return None
     none_err = False
+    if whole:
+        for l in hir.nodes(kh, "letstmt"):
+            if l.get("els") and hir.diverges(l["els"]) and "Err" in str(hir.result_desc(l["els"])) and opt[0] in hir.param_roots(kb.hir, kld, l.get("init") or {}, pidx=pidx) \
+                    and "Type::Name" in hir.pat_desc(l["pat"]):
+                none_err = True
+        for m in hir.nodes(kh, "match"):
+            if opt[0] in hir.param_roots(kb.hir, kld, m["e"], pidx=pidx) and any("Type::Name" in hir.pat_desc(a["pat"]) for a in m["arms"]):
+                others = [a for a in m["arms"] if "Type::Name" not in hir.pat_desc(a["pat"])]
+                if others and all("Err" in str(hir.result_desc(a["body"])) for a in others):
+                    none_err = True
     for l in hir.nodes(kh, "letstmt"):
         if l.get("els") and hir.diverges(l["els"]) and "Err" in str(hir.result_desc(l["els"])) and opt[0] in hir.param_roots(kb.hir, kld, l.get("init") or {}, pidx=pidx) \
                 and "Some" in hir.pat_desc(l["pat"]):
@@ -469,6 +492,8 @@ def _generic_args_form(F, body, rust_binds):
             ni = _name_helper_info(F, a_)
             if ni is not None:
                 info = ni
+        if info is None and comps is not None:
+            info = _name_helper_info(F, c)      # all-in-one form: `checker(type_info, &roto_type, "NAME", &[c0, c1], mismatch)`
         if info is None or comps is None:
             continue
         k = _args_checker_info(F, d)
@@ -1055,9 +1080,13 @@ def rule_g12(F):
     or `enum Option[T] {..}` of their own; those live in the package scope and have nothing to do with the built-ins.  So every
     comparison the signature gate makes on a type name compares whole `ResolvedName`s / `Type`s; the bare `.ident` is never compared."""
     r = RuleResult("C04.G12", "the signature gate compares type names as resolved names (scope + identifier), never the bare identifier", floor=1)  # a search rule: the count is the number of comparisons examined, which helpers merge
-    bodies = [b for b in F.bodies_in(["src/codegen/check.rs"]) if b.hir and "::tests::" not in b.path]
+    return _g12(F, r, ["src/codegen/check.rs"])
+
+
+def _g12(F, r, files, consequence=None):
+    bodies = [b for b in F.bodies_in(files) if b.hir and "::tests::" not in b.path and not (b.path.startswith("<") and " as std::cmp::" in b.path)]
     if not bodies:
-        r.missing("bodies of src/codegen/check.rs")
+        r.missing("bodies of " + ", ".join(files))
         return r
     for b in bodies:
         cmps = [n for n in hir.nodes(b.hir["value"], "bin") if n.get("op") in ("==", "!=")]
@@ -1076,7 +1105,7 @@ def rule_g12(F):
             if bare is not None:
                 r.bad(b.path, "type name compared by identifier only", relfile(b.file), c["line"],
                       "%s compares the identifier of a resolved name (`.ident`) and ignores its scope: a type that a script declares under the name of a built-in "
-                      "(`record Prefix {..}`, `enum Option[T] {..}`) passes the gate as the built-in, and the function is handed out under a Rust signature it does not have" % hir.last(b.path))
+                      "(`record Prefix {..}`, `enum Option[T] {..}`) %s" % (hir.last(b.path), consequence or "passes the gate as the built-in, and the function is handed out under a Rust signature it does not have"))
     return r
 
 
